@@ -48,7 +48,7 @@ CHECKS["C07"] = dict(
          "a requested granularity evaluates to trunc g of the dimension's value (several granularities are independent keys of the flat query); default time dimension added iff a metric of the model is requested and no time dimension is; "
          "invalid granularity and granularity on a non-time field rejected (after fix cff5de5); additive roll-up: re-aggregating per-P-bucket SUMs/COUNTs by the Q bucket equals grouping by Q directly for every refining pair and every table. Tie: trunc vs DuckDB; validate_query/_apply_default_time_dimensions vs Lean on generated reference lists (a malformed and a mostly-valid stream with bare and granular time dimensions) with the property's rule also evaluated on the real code; C01 arms on time-heavy cases; additive roll-up relation checked on real rows for all refining pairs.",
     design_ref="DESIGN.md §4 C07",
-    note="The additive roll-up relation is a theorem for SUM and COUNT over every refining pair (C07_rollup_additive_sum/_count, from the C09 refinement and the partition lemmas of Proofs/Reagg) at the level of keyed bags; the printed SQL is tied to that form by the real-row roll-up check of the run. Trusted base as for C01/C09.",
+    note="Also searched: time dimensions defined by an expression (truncation plus offset, shifted column) at every granularity vs calendar arithmetic. The additive roll-up relation is a theorem for SUM and COUNT over every refining pair (C07_rollup_additive_sum/_count, from the C09 refinement and the partition lemmas of Proofs/Reagg) at the level of keyed bags; the printed SQL is tied to that form by the real-row roll-up check of the run. Trusted base as for C01/C09.",
     technique="Lean 4 proof (omega calendar, model of validate_query and default-time-dimension rule) + correspondence + roll-up oracle on DuckDB",
 )
 
@@ -93,7 +93,7 @@ CHECKS["C17"] = dict(
          "and the offset table REGENERATED from _calculate_lag_offset is calendar-exact on the month/quarter/year and day/week cells (decide over the table), with a proved counterexample for the fixed-row-count cells (F34). "
          "Tie: window clauses + final expressions of compile() vs cumWindow/lagWindow/calcExpr (structural), outer rows vs WinExpr.evalRow over the real inner rows (behavioural). Search: calendar-arithmetic reference from the raw rows.",
     design_ref="DESIGN.md §4 C17",
-    note="Aggregation variants are generated for running, trailing-window and grain-to-date metrics. Conversion metrics and raw window_expression passthrough are not modelled; the inner aggregate is C01's subject. Two genuine defects fixed (F15, F19), one recorded (F34).",
+    note="Several period-over-period metrics in one query are compared with each metric alone. Aggregation variants are generated for running, trailing-window and grain-to-date metrics. Conversion metrics and raw window_expression passthrough are not modelled; the inner aggregate is C01's subject. Two genuine defects fixed (F15, F19), one recorded (F34).",
     technique="Lean 4 proof (positional = declarative window semantics, partition locality, decide over the regenerated offset table) + structural/behavioural correspondence + calendar reference oracle",
 )
 
@@ -103,7 +103,7 @@ CHECKS["C15"] = dict(
          "and so is any tuple of such sinks; obligations C15_no_ordered_site and C15_no_mutation_site over Gen/OrderSites.lean, which is REGENERATED on every run by an AST scan of every set-typed iteration (fail closed) and a taint analysis of writes to objects reachable from the registered graph, "
          "in the modules reachable from compile()/explain(); C15_history_independent: a layer whose only state besides the definitions is a cache that, when filled, is a function of the definitions compiles any query after ANY history of other compilations to what a fresh layer gives, with the code obligations C15_persistent_state (methods of SemanticGraph/SemanticLayer write no instance state outside the registration API other than the lazy adjacency) and C15_memo_sites_constant over the regenerated stateWrites/memoSites tables. Search/validation: the same layers and queries compiled in child processes under distinct PYTHONHASHSEED values (byte comparison), in reversed order on one shared layer after explain() and repeated calls, after random histories (3-10 compiles with repeats) on shared layers incl. diamond join graphs reached through metrics, dimensions or only a filter, and model_dump() snapshots before/after.",
     design_ref="DESIGN.md §4 C15",
-    note="The site classification and the taint analysis are syntactic (trusted translator; three reviewed sites with re-checked reasons); time/randomness/environment reads were searched for and not found. Three genuine defects fixed (was F13).",
+    note="Histories include calls with a per-call dialect override. The site classification and the taint analysis are syntactic (trusted translator; three reviewed sites with re-checked reasons); time/randomness/environment reads were searched for and not found. Three genuine defects fixed (was F13).",
     technique="Lean 4 proof (order-insensitivity of sink classes, history independence of a definitions+cache state machine, decide over the regenerated site/state tables) + translator (AST scan, taint analysis, instance-state inventory) + multi-process hash-seed and history differential",
 )
 
@@ -125,17 +125,17 @@ CHECKS["C05"] = dict(
          "JOIN / QUALIFY / non-literal LIMIT are rejected, SQL over non-model tables is passed through. Tie: the argument tuple the real rewriter hands to SQLGenerator.generate (captured by wrapping its generator object from outside) and the dispatch kind vs extractSimple/dispatch on the same statement. "
          "Search: layer.sql(text) rows and column names vs the structured query for 6 renderings of each generated query (incl. FROM metrics, CTE and sub-select wrappers), a battery of unsupported constructs, equivalent spellings and non-semantic SQL.",
     design_ref="DESIGN.md §4 C05",
-    note="Also searched: SELECT * next to same-named / other fields of a joined model vs the structured query. The CTE/sub-select path, multi-model SQL and Yardstick syntax are covered by the end-to-end arm only; sqlglot's parser is trusted. Two genuine defects fixed (was F6).",
+    note="Several sort keys with mixed directions and ties are always generated. Also searched: SELECT * next to same-named / other fields of a joined model vs the structured query. The CTE/sub-select path, multi-model SQL and Yardstick syntax are covered by the end-to-end arm only; sqlglot's parser is trusted. Two genuine defects fixed (was F6).",
     technique="Lean 4 proof (extraction round trip incl. string-split lemmas, rejection theorems) + tuple-level correspondence + end-to-end differential on DuckDB",
 )
 
 CHECKS["C12"] = dict(
     category="proof",
-    text="The property's domain is a finite matrix; Gen/AdapterMatrix.lean is REGENERATED on every run by evaluation: for each of 15 exporters x (56 measure cells: 7 aggregation types x filtered/plain x display format x column/product expression, COUNT(*) and COUNT(<nullable column>); 16 structure cells: keys, qualified table, sql model, relationship types, time granularity, dimension types, segment, and relationship x related-key pairs compared on the join the relationship resolves to) the harness exports a layer, parses it back with the same adapter, "
+    text="The property's domain is a finite matrix; Gen/AdapterMatrix.lean is REGENERATED on every run by evaluation: for each of 15 exporters x (56 measure cells: 7 aggregation types x filtered/plain x display format x column/product expression, COUNT(*) and COUNT(<nullable column>); 17 structure cells: keys, qualified table, sql model, relationship types, time granularity, dimension types, segment, and relationship x related-key pairs compared on the join the relationship resolves to) the harness exports a layer, parses it back with the same adapter, "
          "executes the surviving metric grouped by a dimension on DuckDB against both graphs and classifies the cell (same / absent / unusable / rejected / changed) and whether a second round trip is a fixed point. Lean 4 obligations (decide over the whole table): no cell outside the recorded findings is `changed` (C12_no_silent_change), "
-         "every such cell is a fixed point (C12_second_roundtrip_fixed), the matrix is complete (15 x 72), the recorded cells still fail (not stale).",
+         "every such cell is a fixed point (C12_second_roundtrip_fixed), the matrix is complete (15 x 73), the recorded cells still fail (not stale).",
     design_ref="DESIGN.md §4 C12",
-    note="Translator-by-evaluation: the theorem is about the observed table, so the trusted base includes the cell evaluator (export/parse/execute). `lost` (an attribute falls back to its default where the format may have no syntax) is allowed and counted. 266 cells in 13 adapters violate the property today and are recorded as F36-* (not repaired: per-adapter format work).",
+    note="Translator-by-evaluation: the theorem is about the observed table, so the trusted base includes the cell evaluator (export/parse/execute). `lost` (an attribute falls back to its default where the format may have no syntax) is allowed and counted. 270 cells in 13 adapters violate the property today and are recorded as F36-* (not repaired: per-adapter format work).",
     technique="translator by evaluation over the finite exporter x feature matrix + Lean 4 decide over the regenerated table + execution of both graphs on DuckDB",
 )
 
@@ -145,7 +145,7 @@ CHECKS["C14"] = dict(
          "every truncation fragment has the argument order its dialect requires for exactly the requested unit and expression; every INTERVAL literal has the dialect's form; every emitted ORDER BY item (7 dialects x dimension/metric key x ASC/DESC), combined with the engine's documented default NULL placement, sorts NULL keys first ascending and last descending, so ordered and LIMITed results agree across dialects (C14_null_order_uniform); the symmetric-aggregate key hash*multiplier+value fits its numeric type in DuckDB/Postgres/BigQuery/Snowflake and provably overflows in ClickHouse/Databricks/Spark (F38). "
          "Tie: relative-date filters of compile(dialect=d) contain RelativeDateRange.parse(phrase, d). Search: compile(dialect=d) of generated single-model, join and window queries and of 15 relative-date phrases x 5 operators must parse under sqlglot(read=d) and, translated to DuckDB, return the DuckDB-dialect rows (ordered queries: the same slice of the same ordering of the unsliced result, NULL sort keys included); a control translation separates transpiler limitations.",
     design_ref="DESIGN.md §4 C14",
-    note="The dialect syntax / numeric-range specifications are written from the engines' documentation (trusted). Whole-statement validity is judged by sqlglot's parsers, equivalence by execution on DuckDB after translation, with dialect hash functions mapped to macros. One finding proved (F38).",
+    note="The dialect arm includes multi-model (FULL OUTER JOIN) queries and empty strings next to NULLs. The dialect syntax / numeric-range specifications are written from the engines' documentation (trusted). Whole-statement validity is judged by sqlglot's parsers, equivalence by execution on DuckDB after translation, with dialect hash functions mapped to macros. One finding proved (F38).",
     technique="Lean 4 decide over regenerated dialect-fragment tables against an explicit dialect specification + parse/transpile/execute differential with control arm",
 )
 
@@ -185,7 +185,7 @@ CHECKS["C13"] = dict(
          "(one theorem per YAML format, suffix-only formats by decide); detection is file-local; merge of parsed files is order-independent for distinct model names. "
          "Tie: original if/elif chain executed on synthetic contents vs the Lean cascade; every exporter's real output checked against its signature; the translator refuses a loop body that does not reset the adapter per file (file-locality of the model); load_from_directory on directories of 1-8 exporter outputs (nested, disjoint names) plus files no branch recognises, in the file system's and 3 permuted enumeration orders (equal results, no model that no file's own adapter extracts), and a deterministic per-exporter battery vs adapter.parse per file.",
     design_ref="DESIGN.md §4 C13",
-    note="The signatures are validated on generated exporter output, not proved about the exporters. Known findings: substring probes inside user text (F12), SML short-circuit (F12), metric-less models in Superset/Hex/Omni/BSL (F24). Superset mis-detection fixed in /repo (4b0b0f5). Python-file execution path not modelled.",
+    note="A relationship probe checks that inference adds no second relationship to a declared target. The signatures are validated on generated exporter output, not proved about the exporters. Known findings: substring probes inside user text (F12), SML short-circuit (F12), metric-less models in Superset/Hex/Omni/BSL (F24). Superset mis-detection fixed in /repo (4b0b0f5). Python-file execution path not modelled.",
     technique="Lean 4 proof (simp over translator-regenerated decision list) + chain-vs-model correspondence + directory loading oracle",
 )
 
@@ -216,7 +216,7 @@ CHECKS["C03"] = dict(
          "keyed FULL OUTER JOIN lemmas (groups = union of the groups, one row per group, each carrying the single queries' values or NULL); proved negation for filters (a filter on one metric model is not shared, F4b). "
          "Tie: SQLGenerator vs Lean needsPreagg/genPreagg/genJoin (decision, structural incl. nested CTEs, behavioural). Search: the property's own relation on the real code — joint rows vs the NULL-safe outer union of the per-metric-model queries.",
     design_ref="DESIGN.md §4 C03",
-    note="Metric-value filters are inside the outer-union oracle (applied to the joint rows). Partial: the theorem for sub-queries requires q.filters = []; the row-level fullOuter evaluator is related to the abstract keyed outer-union lemmas only by correspondence; 3+ metric models joined on the first sub-query's columns are not generated. Known findings F4, F4b, F27, F28 and the C02 findings apply.",
+    note="Join generators request one time dimension at two granularities. Metric-value filters are inside the outer-union oracle (applied to the joint rows). Partial: the theorem for sub-queries requires q.filters = []; the row-level fullOuter evaluator is related to the abstract keyed outer-union lemmas only by correspondence; 3+ metric models joined on the first sub-query's columns are not generated. Known findings F4, F4b, F27, F28 and the C02 findings apply.",
     technique="Lean 4 proof (plan equality of sub-queries, keyed outer-union lemmas) + correspondence + metamorphic joint-vs-single oracle on DuckDB",
 )
 
